@@ -127,6 +127,14 @@ INVALID = [
     ("periodic&reflective overlap", dict(periodic=[0], reflective=[0])),
     ("periodic index = n_dim", dict(periodic=[2])), ("periodic index -1", dict(periodic=[-1])), ("reflective index = n_dim", dict(reflective=[2])),
     ("reflective index 1.0", dict(reflective=[1.0])),
+    # invalid value of one option next to a valid value of a related option (validation must not depend on the other option being unset)
+    ("periodic=[0] with reflective index = n_dim", dict(periodic=[0], reflective=[2])), ("periodic=[0] with reflective index -1", dict(periodic=[0], reflective=[-1])),
+    ("periodic=[0] with reflective index 1.5", dict(periodic=[0], reflective=[1.5])), ("reflective=[1] with periodic index = n_dim", dict(reflective=[1], periodic=[2])),
+    ("reflective=[1] with periodic index -2", dict(reflective=[1], periodic=[-2])),
+    ("ess_ratio=0 with volume_variation set", dict(ess_ratio=0, volume_variation=0.5)), ("volume_variation=-1 with ess_ratio=3", dict(volume_variation=-1.0, ess_ratio=3.0)),
+    ("n_particles=0 with clustering off", dict(n_particles=0, clustering=False)), ("sample='hmc' with resample='syst'", dict(sample="hmc", resample="syst")),
+    ("resample='xyz' with sample='rwm'", dict(resample="xyz", sample="rwm")), ("vectorize+blobs with pool", dict(vectorize=True, blobs_dtype="float64", pool=2)),
+    ("n_dim=0 with n_particles=8", dict(n_dim=0, n_particles=8)), ("periodic index = n_dim with reflective=[]", dict(periodic=[2], reflective=[])),
 ]
 
 
